@@ -1958,3 +1958,107 @@ func ruleRoundGuard(prog *Program, rep *Report) {
 		rep.Errorf("B-round examined %d rounding sites (floor 20): anchors did not resolve", n)
 	}
 }
+
+// ---------------------------------------------------------------- K-embednil
+
+// ruleEmbeddedNil: the fields promoted from an embedded *pointer* are read by the
+// reflective accessors through reflect.Value.FieldByIndex(fi.index), which panics
+// when the index path passes through a nil pointer. Every loop of a struct writer
+// that runs the accessors of a field plan (`for _, fi := range fields` calling
+// through a function-valued field of fi) must first test
+// rv.FieldByIndexErr(fi.index) and skip the field on error - unless the package
+// has no panicking FieldByIndex read of a plan index at all.
+func ruleEmbeddedNil(prog *Program, rep *Report) {
+	rep.Rules = append(rep.Rules, "K-embednil: in oj, sen and alt every loop over a field plan that calls the plan's accessor functions guards promoted fields with reflect.Value.FieldByIndexErr(fi.index) (continue on error), or no accessor of the package reads a plan index with the panicking FieldByIndex: a struct whose embedded pointer is nil is encoded without the promoted fields, as encoding/json does, instead of failing")
+	loops := 0
+	for _, rel := range []string{"oj", "sen", "alt"} {
+		pk := prog.Pkg(rel)
+		if pk == nil {
+			rep.Errorf("K-embednil: package %s not loaded", rel)
+			continue
+		}
+		info := pk.TypesInfo
+		isIndexArg := func(c *ast.CallExpr, fiName string) bool {
+			if len(c.Args) != 1 {
+				return false
+			}
+			a, ok := ast.Unparen(c.Args[0]).(*ast.SelectorExpr)
+			if !ok || a.Sel.Name != "index" {
+				return false
+			}
+			if fiName == "" {
+				return true
+			}
+			id, ok := a.X.(*ast.Ident)
+			return ok && id.Name == fiName
+		}
+		panicking := 0
+		for _, f := range pk.Syntax {
+			ast.Inspect(f, func(n ast.Node) bool {
+				if c, ok := n.(*ast.CallExpr); ok {
+					if sel, ok := c.Fun.(*ast.SelectorExpr); ok && sel.Sel.Name == "FieldByIndex" && isIndexArg(c, "") {
+						if t := info.TypeOf(sel.X); t != nil && t.String() == "reflect.Value" {
+							panicking++
+						}
+					}
+				}
+				return true
+			})
+		}
+		rep.Eval(panicking)
+		if panicking == 0 {
+			rep.Discharge("K-embednil", rel, rel, "no panicking FieldByIndex read of a plan index")
+			continue
+		}
+		for _, f := range pk.Syntax {
+			ast.Inspect(f, func(n ast.Node) bool {
+				rs, ok := n.(*ast.RangeStmt)
+				if !ok || rs.Value == nil {
+					return true
+				}
+				fi, ok := rs.Value.(*ast.Ident)
+				if !ok {
+					return true
+				}
+				fiObj := info.Defs[fi]
+				// does the body call through a function-valued field of fi?
+				calls := false
+				guard := false
+				ast.Inspect(rs.Body, func(k ast.Node) bool {
+					c, ok := k.(*ast.CallExpr)
+					if !ok {
+						return true
+					}
+					if sel, ok := c.Fun.(*ast.SelectorExpr); ok {
+						if id, ok := sel.X.(*ast.Ident); ok && info.Uses[id] == fiObj && fiObj != nil {
+							if _, isSig := info.TypeOf(sel).Underlying().(*types.Signature); isSig {
+								if s := info.Selections[sel]; s != nil && s.Kind() == types.FieldVal {
+									calls = true
+								}
+							}
+						}
+						if sel.Sel.Name == "FieldByIndexErr" && isIndexArg(c, fi.Name) {
+							guard = true
+						}
+					}
+					return true
+				})
+				if !calls {
+					return true
+				}
+				loops++
+				key := fmt.Sprintf("%s.%s:plan-loop", rel, enclosingFuncName(f, rs.Pos()))
+				if guard {
+					rep.Discharge("K-embednil", key, prog.Pos(rs.Pos()), "promoted fields are tested with FieldByIndexErr")
+				} else {
+					rep.Violate(Finding{Rule: "K-embednil", Key: key + ":unguarded", Pos: prog.Pos(rs.Pos()),
+						Msg: fmt.Sprintf("%s runs the accessors of a field plan without testing the index path of promoted fields; %d accessors of the package read it with reflect.Value.FieldByIndex, which panics through a nil embedded pointer: such a struct is not encoded at all (empty result, error or panic)", enclosingFuncName(f, rs.Pos()), panicking)})
+				}
+				return true
+			})
+		}
+	}
+	if loops < 5 {
+		rep.Errorf("K-embednil examined %d field-plan loops (floor 5): anchors did not resolve", loops)
+	}
+}
